@@ -4440,7 +4440,7 @@ EmitModVSib:
         goto InvalidAddress;
 
       mod += op_reg << 3;
-      if (rel_offset == 0 && mod != 0x06) {
+      if (rel_offset == 0 && (mod & 0x07) != 0x06) {
         writer.emit8(mod);
       }
       else if (Support::is_int_n<8>(rel_offset)) {
